@@ -54,7 +54,7 @@ def shapes():
 SHAPES = shapes()
 
 
-def make_section_lines(rng, shape, idx):
+def make_section_lines(rng, shape, idx, same=None):
     kind, ending = shape
     if kind == 'submodule_short':
         name = 'sub%d' % idx
@@ -75,8 +75,14 @@ def make_section_lines(rng, shape, idx):
         return ls
     s = gen.gen_section(rng, kind, simple_paths=True, maxlines=6, maxlen=50)
     # distinct paths per position
-    s.old_path = 'p%d/%s' % (idx, s.old_path)
-    s.new_path = 'p%d/%s' % (idx, s.new_path) if kind not in ('renamed', 'renamed_changed', 'copied') else 'q%d/%s' % (idx, s.new_path)
+    if same:
+        # neighbouring sections about the very same file (staged + unstaged change, mode change then edit): state keyed
+        # on the file pair must still be reset between them
+        s.old_path = same
+        s.new_path = same if kind not in ('renamed', 'renamed_changed', 'copied') else 'q/' + same
+    else:
+        s.old_path = 'p%d/%s' % (idx, s.old_path)
+        s.new_path = 'p%d/%s' % (idx, s.new_path) if kind not in ('renamed', 'renamed_changed', 'copied') else 'q%d/%s' % (idx, s.new_path)
     if s.hunks:
         h = s.hunks[-1]
         if ending == '\\':
@@ -132,7 +138,8 @@ EXHAUSTIVE_SCOPE = 'all ordered pairs of the %d (kind, ending) shapes x %d modes
 def run_item(item):
     _, seed, shape_idx, mode, reps = item
     rng = engine.item_rng(seed)
-    secs = [make_section_lines(rng, SHAPES[k], i) for i, k in enumerate(shape_idx)]
+    same = rng.choice(['same/file.rs', 'LICENSE', 'dir/notes.xyzzy', 'a b/c d.py']) if rng.random() < 0.25 else None
+    secs = [make_section_lines(rng, SHAPES[k], i, same) for i, k in enumerate(shape_idx)]
     if MODES[mode] == 'GITCONFIG':
         args = ['--paging', 'never', '--config', runner.write_file('c10.gitconfig', GITCONFIG_TEXT)]
         reps = max(reps, 6)
@@ -141,7 +148,7 @@ def run_item(item):
     whole_in = ('\n'.join(l for s in secs for l in s) + '\n').encode()
     outs = []
     counters = {'sections': len(secs), 'determinism_reruns': 0}
-    sets = {'modes': [mode], 'shapes': ['%s/%s' % SHAPES[k] for k in shape_idx]}
+    sets = {'modes': [mode], 'shapes': ['%s/%s' % SHAPES[k] for k in shape_idx], 'same_file_in_all_sections': [same or 'no']}
     whole = runner.run_delta(args, whole_in, trace=(seed % 4 == 0))
     if whole.trace is not None:
         sets['state_transitions'] = engine.transitions(whole.trace)
